@@ -5,6 +5,9 @@
             writer functions; a new object or a new writer is a finding.
  RF7c-cache the one cache that answers lookups (zif->cache) is written only as a whole from one __find_zrng result
             (or zeroed), compared half-open, and carries a full-width index (shared with C12's rules).
+ RF7c-valid the zeroed cache of a fresh zone is the empty range: narrowing the search with its transition number requires an
+            emptiness test, and a search that finds nothing may hand out (and cache) the whole time line only for a zone
+            without transitions.
  RF7c-gen   generation-counter scratch table (strops.c table/cycle): generation 0 means `never marked', so the
             counter may only be incremented under a wrap guard and only be reset to a non-zero value together with
             clearing the table.
@@ -152,7 +155,9 @@ def check_cache(P, R):
                     continue
                 R.finding(rule, fn, "read of cache", "the lookup cache is consulted outside __offs", x)
     nh = tzrules.halfopen_ranges(P, R, "RF-halfopen")
-    R.floor("RF-halfopen", "comparisons against zrng_s bounds", nh, 5)
+    R.floor("RF-halfopen", "comparisons against zrng_s bounds", nh, 4)
+    nv = tzrules.cache_validity(P, R, "RF7c-valid")
+    R.floor("RF7c-valid", "narrowing reads of the cache / whole-time-line ranges", nv, 2)
     tzrules.index_narrowing(P, R, "RF3-index", ["tzraw.c"], {"__find_trno", "zif_find_trans"}, {"ntr", "trno"},
                             [("zrng_s", "trno", 31)])
 
